@@ -145,7 +145,7 @@ fn execute(pair: &Pair, template: &Path, run_root: &Path, k: usize, errno: i32) 
 }
 
 fn worker(run_root: &Path, kind: &str, ops: &Value, shim_env: &[(OsString, OsString)]) -> (bool, String, usize) {
-    let out = std::process::Command::new(bin_dir().join("vworker")).arg("c12").arg(run_root).arg(kind).arg(ops.to_string()).arg("3").envs(shim_env.iter().cloned()).output().expect("spawn vworker");
+    let out = std::process::Command::new(bin_dir().join("vworker")).arg("c12").arg(run_root).arg(kind).arg(ops.to_string()).arg("3").envs(shim_env.iter().cloned()).output().expect("harness: spawn vworker");
     let stdout = String::from_utf8_lossy(&out.stdout).to_string();
     match serde_json::from_str::<Value>(stdout.lines().last().unwrap_or("")) {
         Ok(v) => (v["ok"] == true, v["err"].as_str().unwrap_or("").to_string(), 0),
